@@ -685,7 +685,7 @@ public final class Driver {
                 try {
                     call(obj, "decode", Unpooled.wrappedBuffer(unhex(toks[3])));
                 } catch (Observed e) {
-                    throw new Unsupported("first decode failed: " + describe(e.getCause()));
+                    return "ERR " + id + " inapplicable first decode failed: " + describe(e.getCause()) + "\n";
                 }
                 ByteBuf buf = Unpooled.wrappedBuffer(unhex(toks[4]));
                 call(obj, "decode", buf);
